@@ -102,7 +102,8 @@ def run_case(case):
     elec = np.einsum("ij,ijn->n", dm, V)
     elec_sc = np.einsum("ij,ijn->n", np.abs(dm), np.abs(V))
     d = np.sqrt(((pts[:, None, :] - nuc[None, :, :]) ** 2).sum(axis=2))
-    kw = {} if T is None else {"transform": T.copy()}
+    rkind = cm.REPS[(len(pts) + len(Z)) % len(cm.REPS)]  # in-memory representation of the array arguments
+    kw = {} if T is None else {"transform": cm.rep(T, rkind)}
     mixed = False
     for thr in case["thresholds"]:
         # skip decisions closer than 1e-9 relative to the boundary (not judged by design)
@@ -115,7 +116,7 @@ def run_case(case):
         nucpot = terms.sum(axis=1)
         ref = nucpot - elec
         scale = np.where(np.isfinite(nucpot), np.abs(np.where(np.isfinite(terms), terms, 0.0)).sum(axis=1), 0.0) + elec_sc + 1e-300
-        out = cm.call(electrostatic_potential, cm.build(shells), dm.copy(), pts.copy(), nuc.copy(), Z.copy(), threshold_dist=float(thr), **kw)
+        out = cm.call(electrostatic_potential, cm.build(shells), cm.rep(dm, rkind), cm.rep(pts, rkind), cm.rep(nuc, rkind), cm.rep(Z, rkind), threshold_dist=float(thr), **kw)
         evals += 1
         if keep.any() and (~keep).any():
             mixed = True
